@@ -154,3 +154,36 @@ Proof. vm_compute. auto. Qed.
 
 Lemma nonvacuous_event : In (EPM [109;121;58;99] [222;173]) (o_events (spec_handle HBackendPlay env0 custom_msg)).
 Proof. vm_compute. auto. Qed.
+
+(* ---------- histories ---------- *)
+Lemma event_body_history : forall h e ms,
+  Forall2 (fun m o => forall id d, In (EPM id d) (o_events o) -> id = m_ch m /\ d = m_data m)
+          ms (spec_history h e ms).
+Proof.
+  intros h e ms. unfold spec_history, handle_history. induction ms as [|m ms IH]; cbn; constructor; [|exact IH].
+  intros id d H. exact (event_body h e m id d H).
+Qed.
+
+Lemma written_history : forall h e ms,
+  Forall2 (fun m o => forall w, In w (o_writes o) -> is_message m w) ms (spec_history h e ms).
+Proof.
+  intros h e ms. unfold spec_history, handle_history. induction ms as [|m ms IH]; cbn; constructor; [|exact IH].
+  intros w H. exact (written_is_message h e m w H).
+Qed.
+
+(* what the judge demands of the observation of one message is exactly that: start = end = own body *)
+Lemma hist_matches_body : forall h e m x id d,
+  hist_matches (spec_handle h e m) x = true -> o_events (spec_handle h e m) = [EPM id d] ->
+  h_start x = m_data m /\ h_end x = m_data m.
+Proof.
+  intros h e m x id d H E. unfold hist_matches in H. rewrite E in H.
+  apply andb_true_iff in H. destruct H as [H _]. apply andb_true_iff in H. destruct H as [H1 H2].
+  apply beq_bytes_eq in H1. apply beq_bytes_eq in H2.
+  assert (In (EPM id d) (o_events (spec_handle h e m))) as Hin by (rewrite E; left; reflexivity).
+  destruct (event_body h e m id d Hin) as [_ ->]. auto.
+Qed.
+
+Definition two_msgs : list msg := [custom_msg; mkMsg [109;121;58;99] [1;2] [24;4;109;121;58;99;1;2]].
+Lemma nonvacuous_history :
+  map o_events (spec_history HBackendPlay env0 two_msgs) = [[EPM [109;121;58;99] [222;173]]; [EPM [109;121;58;99] [1;2]]].
+Proof. vm_compute. reflexivity. Qed.
